@@ -15,8 +15,8 @@ pub const STEER: u64 = 8;
 
 pub fn n_cases(ctx: &Ctx) -> u64 {
     let base = match (ctx.variant.as_str(), ctx.thorough()) {
-        ("miri", false) => 4,
-        ("miri", true) => 24,
+        ("miri", false) => 56,
+        ("miri", true) => 1500,
         ("tsan", false) => 120,
         ("tsan", true) => 1500,
         (_, false) => 1500,
